@@ -25,6 +25,8 @@ callback, a (skip)ped callback, a varargs callback) and then
  E  namespace Foo including FooDep (a namespace whose name starts with "Foo", with types named like local
     ones): FooDep types in every slot kind of part A, directly and through annotations; in addition to the
     invariants, a live qualified reference FooDep.* must be present (rule type-requalified)
+ F  containers: GHashTable with (good key, bad value) / (bad, good) / (bad, bad) / (good, good) for every kind of
+    unbindable element, lists and arrays of each element, nested containers, in every slot kind and as a property
  D  cross references: closure/destroy/array-length annotations naming every parameter
     (functions, methods, callbacks, fields), rename-to pairs, GObject classes whose
     properties (from a generated runtime dump) have exotic types and accessor methods,
@@ -51,7 +53,7 @@ INCLUDES = ['Gio-2.0']
 # A case is JSON-able: {'part': 'A', 'decls': [spec...], 'comments': [text...], 'dump': str|None, 'note': str}
 # spec: ['td', name, target] | ['st', tag, [fieldspec...], union?] | ['cb', name, ret, params, varargs]
 #       | ['fn', name, ret, params, varargs]
-# fieldspec: ['f', name, type] | ['fcb', name, ret, params, varargs] | ['fa', name, type, n]
+# fieldspec: ['f', name, type] | ['fcb', name, ret, params, varargs] | ['fa', name, type, n] | ['fu', name, fields, union?]
 
 
 def build(spec):
@@ -65,6 +67,8 @@ def build(spec):
                 fields.append(Field(f[1], f[2]))
             elif f[0] == 'fa':
                 fields.append(Field(f[1], f[2], array=f[3]))
+            elif f[0] == 'fu':       # ['fu', name, [[fname, ftype]...], union?]: anonymous struct/union member
+                fields.append(fake.FieldAnon(f[1], [Field(n, t) for n, t in f[2]], union=bool(f[3])))
             else:
                 fields.append(FieldCb(f[1], f[2], [tuple(p) for p in f[3]], varargs=bool(f[4])))
         return Struct(spec[1], fields, union=bool(spec[3]) if len(spec) > 3 else False)
@@ -188,6 +192,38 @@ def part_e(tier):
         cases.append({'part': 'E', 'decls': decls, 'comments': com, 'dump': dump_xml(), 'dep': 'c15',
                       'expect_ref': 'FooDep.' if dep else None,
                       'note': 'Foo including FooDep: atom %s, annotation %s' % (a, ann or '-')})
+    return cases
+
+
+def part_f(tier):
+    """Container alphabet: GHashTable with (good key, bad value), (bad key, good value), (bad, bad), (good, good) for
+    every kind of bad element (unknown name, demoted callback, skipped record, skipped callback, forbidden atom),
+    in every slot kind of part A and as a GObject property; lists/arrays of each element; nested containers."""
+    good = ['utf8', 'Foo.Obj', 'gint']
+    bad = ['FooUnknown', 'Foo.NoSuch', 'Foo.VaCb', 'Foo.Skip', 'Foo.SkipCb', 'va_list']
+    if tier == 'thorough':
+        good += ['gpointer', 'Foo.OkCb', 'GLib.Variant']
+        bad += ['GLib.NoSuch', 'Foo.NoScopeCb', 'long long', 'FooSkip*']
+    pairs = [(k, v) for k in good[:2] for v in bad] + [(k, v) for k in bad for v in good[:2]] + \
+            [(k, v) for k in bad[:3] for v in bad[:3]] + [(k, v) for k in good for v in good]
+    anns = []
+    for k, v in pairs:
+        anns.append(('GHashTable*', '(element-type %s %s)' % (k, v)))
+        anns.append(('gpointer', '(type GLib.HashTable(%s,%s))' % (k, v)))
+    for e in good + bad:
+        anns.append(('GList*', '(element-type %s)' % e))
+        anns.append(('GPtrArray*', '(element-type %s)' % e))
+        anns.append(('GList*', '(element-type GLib.HashTable(utf8,%s))' % e))
+        anns.append(('gpointer', '(type GLib.List(GLib.HashTable(%s,utf8)))' % e))
+        anns.append(('GHashTable*', '(element-type utf8 GLib.List(%s))' % e))
+    cases = []
+    for a, ann in anns:
+        decls, com = slot_template(a, ann, extra=EXTRA_CBS)
+        com.append(blk('FooThing:tbl', ident=ann))
+        cases.append({'part': 'F', 'decls': decls, 'comments': com,
+                      'dump': dump_xml(props=[('tbl', 'GHashTable' if a == 'GHashTable*' else 'gpointer', 3)],
+                                       signals=[]),
+                      'note': 'container %s %s' % (a, ann)})
     return cases
 
 
@@ -563,7 +599,7 @@ def rename_shape(assign):
     return 'simple'
 
 
-PARTS = {'A': part_a, 'B': part_b, 'C': part_c, 'D': part_d, 'E': part_e}
+PARTS = {'A': part_a, 'B': part_b, 'C': part_c, 'D': part_d, 'E': part_e, 'F': part_f}
 
 
 # ---------------------------------------------------------------- execution --
@@ -754,7 +790,7 @@ def run(ctx):
     tier = ctx.tier
     cases = []
     sizes = {}
-    for name in 'ABCDE':
+    for name in 'ABCDEF':
         cs = PARTS[name](tier)
         sizes[name] = len(cs)
         cases += cs
